@@ -2,7 +2,7 @@
    name.  This is what is extracted; the correspondence harness calls these
    and nothing else. *)
 From AK Require Import Base.Prelude Base.Sx Bytes.Text Bytes.FabHeader Bytes.BinFile
-  Reader.Select Reader.BoxRead Reader.Level.
+  Reader.Select Reader.BoxRead Reader.Level Plotfile.TextHeader.
 
 Definition as_Zs := as_list as_Z.
 Definition as_optZ := as_opt as_Z.
@@ -45,7 +45,7 @@ Definition dec_farg (s : sx) : option farg :=
 Definition enc_farg (a : farg) : sx :=
   match a with
   | FInt i => SL [SZ 0; SZ i]
-  | FSlice a b c => SL [SZ 1; of_opt SZ a; of_opt SZ b; of_opt SZ c]
+  | FSlice a b c => SL [SZ 1; Sx.of_opt SZ a; Sx.of_opt SZ b; Sx.of_opt SZ c]
   | FList l => SL [SZ 2; of_Zs l]
   end.
 
@@ -139,6 +139,88 @@ Definition e_norm_farg (s : sx) : sx :=
   | _ => bad_request
   end.
 
+(* ---- C02: text headers ---- *)
+Definition as_Bs := as_list as_B.
+Definition as_text := as_list as_Bs.
+Definition enc_line (l : line) : sx := of_list SB l.
+Definition enc_text (t : text) : sx := of_list enc_line t.
+
+Definition dec_gheader (s : sx) : option gheader :=
+  match s with
+  | SL [ver; names; SZ ndims; SB time; SZ maxlv; lo; hi; factors; grid; steps; dx; sys] =>
+      do ver <- as_Bs ver; do names <- as_Bs names; do lo <- as_Bs lo; do hi <- as_Bs hi;
+      do factors <- as_Zs factors; do grid <- as_list as_Zs grid; do steps <- as_Zs steps;
+      do dx <- as_list as_Bs dx; do sys <- as_Bs sys;
+      Some {| g_version := ver; g_names := names; g_ndims := ndims; g_time := time;
+              g_max_level := maxlv; g_geo_low := lo; g_geo_high := hi; g_factors := factors;
+              g_grid_hi := grid; g_steps := steps; g_dx := dx; g_sys_coord := sys |}
+  | _ => None
+  end.
+
+Definition enc_gheader (g : gheader) : sx :=
+  SL [enc_line (g_version g); of_list SB (g_names g); SZ (g_ndims g); SB (g_time g);
+      SZ (g_max_level g); enc_line (g_geo_low g); enc_line (g_geo_high g); of_Zs (g_factors g);
+      of_list of_Zs (g_grid_hi g); of_Zs (g_steps g); of_list enc_line (g_dx g);
+      enc_line (g_sys_coord g)].
+
+Definition dec_lvboxes (s : sx) : option lvboxes :=
+  match s with
+  | SL [SZ nc; stepl; boxes; SB dir; SB tm] =>
+      do stepl <- as_Bs stepl;
+      do boxes <- as_list (as_list (as_pair as_B as_B)) boxes;
+      Some {| lb_ncells := nc; lb_step_line := stepl; lb_boxes := boxes;
+              lb_cell_dir := dir; lb_time_tok := tm |}
+  | _ => None
+  end.
+
+Definition enc_lvboxes (b : lvboxes) : sx :=
+  SL [SZ (lb_ncells b); enc_line (lb_step_line b);
+      of_list (of_list (of_pair SB SB)) (lb_boxes b); SB (lb_cell_dir b); SB (lb_time_tok b)].
+
+Definition dec_cellh (s : sx) : option cellh :=
+  match s with
+  | SL [idx; files; offs; mins; maxs] =>
+      do idx <- as_list (as_pair as_Zs as_Zs) idx; do files <- as_Bs files; do offs <- as_Zs offs;
+      do mins <- as_list as_Bs mins; do maxs <- as_list as_Bs maxs;
+      Some {| c_indexes := idx; c_files := files; c_offsets := offs; c_mins := mins; c_maxs := maxs |}
+  | _ => None
+  end.
+
+Definition enc_cellh (c : cellh) : sx :=
+  SL [of_list (of_pair of_Zs of_Zs) (c_indexes c); of_list SB (c_files c); of_Zs (c_offsets c);
+      of_list enc_line (c_mins c); of_list enc_line (c_maxs c)].
+
+Definition e_print_header (s : sx) : sx :=
+  match s with
+  | SL [g; lvs] => req (do g <- dec_gheader g; do lvs <- as_list dec_lvboxes lvs; Some (g, lvs))
+                       (fun '(g, lvs) => ok (enc_text (print_header g lvs)))
+  | _ => bad_request
+  end.
+
+Definition e_print_cellh (s : sx) : sx :=
+  match s with
+  | SL [SZ nf; c] => req (dec_cellh c) (fun c => ok (enc_text (print_cellh nf c)))
+  | _ => bad_request
+  end.
+
+Definition enc_opened (o : opened) : sx :=
+  SL [enc_gheader (o_g o); of_list SB (o_keys o); SZ (o_limit o); of_list enc_lvboxes (o_levels o)].
+
+Definition e_open_header (s : sx) : sx :=
+  match s with
+  | SL [t; limit] => req (do t <- as_text t; do l <- as_optZ limit; Some (t, l))
+                         (fun '(t, l) => of_result enc_opened (open_header t l))
+  | _ => bad_request
+  end.
+
+Definition e_parse_cellh (s : sx) : sx :=
+  match s with
+  | SL [t; SZ nf; mm] => req (do t <- as_text t; do mm <- as_bool mm; Some (t, mm))
+                             (fun '(t, mm) => of_result enc_cellh
+                                (match p_cellh nf mm t with Some (c, _) => Some c | None => None end))
+  | _ => bad_request
+  end.
+
 Definition entries : list (string * (sx -> sx)) :=
   [ ("getitem", e_getitem);
     ("iter_all", e_iter_all);
@@ -148,7 +230,11 @@ Definition entries : list (string * (sx -> sx)) :=
     ("read_box", e_read_box);
     ("read_bfile", e_read_bfile);
     ("select_boxes", e_select_boxes);
-    ("norm_farg", e_norm_farg)
+    ("norm_farg", e_norm_farg);
+    ("print_header", e_print_header);
+    ("print_cellh", e_print_cellh);
+    ("open_header", e_open_header);
+    ("parse_cellh", e_parse_cellh)
   ]%string.
 
 Fixpoint find_entry (name : string) (l : list (string * (sx -> sx))) : option (sx -> sx) :=
